@@ -138,6 +138,11 @@ def check_origin(ctx, P, fk, what, value_of, need="fresh-or-param", inline_depth
             if src.op == "param":
                 detail.append("caller-supplied `%s`" % src.a[1])
                 continue
+        pa = B.peel(strip_sites(a))
+        if pa.op == "field" and pa.a[1] == "0" and pa.a[0].op == "downcast" and pa.a[0].a[1] == "Some" and B.peel(pa.a[0].a[0]).op == "param":
+            # the Some arm of `match blinder { Some(k) => k, None => <draw> }`
+            detail.append("caller-supplied `%s`" % B.peel(pa.a[0].a[0]).a[1])
+            continue
         ds = draws(a)
         good = [d for d in ds if gen_ok(d[2])]
         if not good:
